@@ -33,12 +33,16 @@ type edit struct {
 }
 
 func main() {
-	outDir := "/verif/.cache/overlay"
-	hookSrc := "/verif/mc/hooksrc"
+	vdir := os.Getenv("VERIF_DIR")
+	if vdir == "" {
+		vdir = "/verif"
+	}
+	outDir := vdir + "/.cache/overlay"
+	hookSrc := vdir + "/mc/hooksrc"
 	pkgs := findPackages()
 	// hash of inputs
 	h := sha256.New()
-	selfSrc, _ := os.ReadFile("/verif/mc/cmd/mkoverlay/main.go")
+	selfSrc, _ := os.ReadFile(vdir + "/mc/cmd/mkoverlay/main.go")
 	h.Write(selfSrc)
 	var files []string
 	for _, p := range pkgs {
